@@ -163,3 +163,31 @@ PROPS["C17"] = {
     "level_text": "Lean theorems for every history and limit: conservation (each event exactly once: its counter or the overflow count), bound and no duplicate addresses, per-client = aggregated while no overflow, merge preserves per-address sums, server wiring totals = traffic; tied to the code by bounded-exhaustive and long random histories on the real recorders and by in-process server traffic",
     "technique": "Lean 4 proof (history induction over recorder ops) + bounded-exhaustive/random differential",
 }
+
+CLIENT_TB = ["real roughenough-client binary (built from /repo's working tree) run as a process against a loopback UDP responder; exit status and stdout/stderr are the observables",
+             "the Lean reference responder (Spec.RT.respondWith with real Ed25519/SHA-512 transcriptions) produces honest and forged datagrams; forgeries are applied by the harness with its own lenient tag-value codec",
+             TB_CRYPTO]
+PROPS["C01"] = {
+    "claimed": False, "module": "Rough.Props.C01", "need_bins": True,
+    "theorems": ["Rough.Props.C01.C01_sound", "Rough.Props.C01.C01_no_replay"],
+    "streams": [{"args": ["client-forged"], "shards_quick": 12, "shards_thorough": 16}],
+    "ops": ["client"], "trivial": r"^$", "min_nontrivial": 100,
+    "rule": "client process runs with a pinned key (hex and base64), both protocols; per group an honest control and: bit flip / re-randomisation / last-byte change in each region SIG, NONC, PATH, INDX, SREP.{MIDP,RADI,ROOT,VER}, CERT.SIG, DELE.{PUBK,MINT,MAXT}; full re-signing by another long-term key; delegation or response signed under the other protocol's context; CERT spliced from the other protocol; whole response in the other protocol's format; response for another request of the same batch; own NONC with the other leaf's path; properly signed midpoint before/after/at the edge of the delegation window; replay of the previous run's genuine response; replay within a -n 2 run; truncation at 4-byte boundaries (9 quick / 110 thorough); random byte mutations; extension, garbage, empty datagram. L1 = a time line printed or exit 0 only if the independent `authentic` predicate (signature chain, window, Merkle binding of this request) holds, printed time = signed midpoint. L2 = exit status and printed fields equal the model's. every case distinct (fresh nonce)",
+    "trusted_base": CLIENT_TB,
+    "assumptions": ["nonce freshness (SystemRandom) is outside the model; the harness checks that all nonces seen in a run are distinct (statistical)", "datagrams longer than the client's 4096-byte buffer are truncated by the OS before the client sees them"],
+    "design_ref": "5/C01",
+    "level_text": "Lean theorems: the client model accepts (prints a time, exit 0) with a pinned key only if the independent authenticity predicate holds for its own request, then reports exactly the signed midpoint; accepting an honest response made for a batch not containing this request yields an explicit hash break; tied to the code by process-level runs of the real client against honest and forged responders",
+    "technique": "Lean 4 proof (client model sound w.r.t. independent authenticity spec; replay => hash break) + process-level differential with forged responses",
+}
+PROPS["C03"] = {
+    "claimed": False, "module": "Rough.Props.C03", "need_bins": True,
+    "theorems": ["Rough.Props.C03.C03_request_wellformed", "Rough.Props.C03.C03_accept", "Rough.Props.C03.C03_time"],
+    "streams": [{"args": ["client-honest"], "shards_quick": 12, "shards_thorough": 16}, {"args": ["client-real"], "shards_quick": 1, "shards_thorough": 1}],
+    "ops": ["client", "clientreal"], "trivial": r"^$", "min_nontrivial": 100,
+    "rule": "client process runs against the honest Lean reference responder: protocol {classic, draft-13} x key {none, hex, base64} x batch size (11 sizes quick / 1..=64 thorough) x position (3 per size quick / every position thorough) x midpoints on a grid from the epoch to 9999-12-31 with sub-second edge values, plain and JSON output; multi-request runs (-n 2,3,8); and the real client against the real server binary (single and -n 64 runs, both protocols, with and without key). L1 = exit 0, one time line per request, verified flag = key supplied, printed %s.%f = signed MIDP converted from the protocol's unit. every case distinct",
+    "trusted_base": CLIENT_TB,
+    "assumptions": ["chrono's formatting of %s.%f is trusted; midpoints beyond year 262143 (chrono's range) make the client abort and are outside the property's range"],
+    "design_ref": "5/C03",
+    "level_text": "Lean theorems: client requests are 1024 bytes and must-answer by the reference classification; the client model accepts the reference responder's reply for every batch size and position with outcome (midpoint, radius, verified = key supplied, index); printed time = unit conversion; tied to the code by process-level runs of the real client against the Lean responder and the real server",
+    "technique": "Lean 4 proof (client model complete w.r.t. reference responder) + process-level differential",
+}
